@@ -101,7 +101,7 @@ Qed.
 Lemma it_snext_ext : forall i ctx its p r x its' r',
   it_snext toks spn run i ctx its p r = Some (x, its', r') -> p <= length toks -> snext_pos x p.
 Proof.
-  induction i as [a lo hi|a sep lo hi lead trail|j IHj|f j IHj|f j IHj|a|a lo hi ck];
+  induction i as [a lo hi|a sep lo hi lead trail|j IHj|f j IHj|f j IHj|a|a lo hi ck|a];
     intros ctx its p r x its' r' H Hp; cbn [it_snext] in H.
   - destruct its; try discriminate.
     destruct (rep_snext run a lo hi ctx n p r) as [[[x0 c'] r0]|] eqn:E; [|discriminate].
@@ -125,6 +125,11 @@ Proof.
       injection H as <- <- <-. eapply rep_snext_ext; eauto.
     + destruct (run (TryMap PFalse FId k Empty) ctx p r) as [[[?|] ?]|]; try discriminate.
       injection H as <- <- <-. exact I.
+  - destruct its as [| | | | |[l|]]; try discriminate.
+    + destruct l; injection H as <- <- <-; cbn; lia.
+    + destruct (run a ctx p r) as [[[[[v1 p1] e1]|] a1]|] eqn:E; try discriminate.
+      * pose proof (HE _ _ _ _ _ _ _ _ E Hp). destruct (val_items v1); injection H as <- <- <-; cbn; auto.
+      * injection H as <- <- <-. exact I.
 Qed.
 
 Lemma sdrive_ext : forall fuel i ctx its lim acc acce p r items fl p' ems r',
@@ -282,6 +287,13 @@ Ltac ext_crush IH :=
   | H : Some _ = Some _ |- _ => injection H as <- <- <- <-
   end; try lia.
 
+Lemma skip_ws_ext ws : forall k p, p <= length toks -> p <= skip_ws toks k ws p <= length toks.
+Proof.
+  induction k as [|k IH]; intros p Hp; cbn [skip_ws]; [lia|].
+  destruct (nth_error toks p) as [t|] eqn:E; [|lia]. apply nth_some_lt in E.
+  destruct (memN t ws); [|lia]. specialize (IH (S p) E). lia.
+Qed.
+
 Theorem sem_ext : forall n, Ext (sem n).
 Proof.
   induction n as [|n IH]; intros g ctx p a v p' e a' H Hp; [discriminate|].
@@ -333,7 +345,7 @@ Proof.
     { clear H. intros H.
       destruct (sdrive toks spn (sem n) (S n0) i ctx (mk_iter i ctx) (Some n0) [] [] p a) as [[[[[[its fl] p1] e1]|] a1]|] eqn:E; try discriminate.
       destruct fl; [discriminate|]. injection H as <- <- <- <-. eapply sdrive_ext; eauto. }
-    destruct n0; [destruct (its_fail (mk_iter i ctx)); [eapply IH; eauto|]|]; exact (HB H).
+    destruct n0; [destruct (it_eager i ctx); [eapply IH; eauto|]|]; exact (HB H).
   - (* Foldl *)
     destruct (sem n g ctx p a) as [[[[[v1 p1] e1]|] a1]|] eqn:E1; try discriminate. apply IH in E1; auto.
     destruct (sdrive toks spn (sem n) n i ctx (mk_iter i ctx) None [] [] p1 a1) as [[[[[[its fl] p2] e2]|] a2]|] eqn:E; try discriminate.
@@ -385,6 +397,11 @@ Proof.
   - (* ExtWrap *)
     destruct (sem n g ctx p a) as [[[[[v1 p1] e1]|] [[q e0]|]]|] eqn:E1; try discriminate;
       injection H as <- <- <- <-; eapply IH; eauto.
+  - (* Padded *)
+    pose proof (skip_ws_ext ws (length toks) p Hp) as X0.
+    destruct (sem n g ctx (skip_ws toks (length toks) ws p) a) as [[[[[v1 p1] e1]|] a1]|] eqn:E1; try discriminate.
+    injection H as <- <- <- <-. pose proof (IH _ _ _ _ _ _ _ _ E1 (proj2 X0)) as X1.
+    pose proof (skip_ws_ext ws (length toks) p1 (proj2 X1)). lia.
 Qed.
 
 End Extent.
